@@ -8,7 +8,7 @@ import json, os, subprocess, sys, glob, shutil, concurrent.futures as cf
 VERIF = '/verif'
 # which check (and optional --only filter) is responsible for which seed
 TARGET = {
- 'REG-C09-overlap': [('C09', 'OVERLAP_w4')], 'REG-C03-sourcedef-order': [('C03', 'source_def')], 'REG-C16-tsfactor': [('C16', 'CRASH')], 'REG-C05-prevlen': [('C05', 'empty_middle')], 'REG-C19-repair-next': [('C19', 'O3_repair')], 'REG-C19-repair-head0': [('C19', 'O3_repair')], 'REG-C09-gapfill': [('C09', 'GAP_w16')], 'REG-C01-reader-subbyte': [('C01', 'O2_reader_w4')], 'REG-C01-carry': [('C01', 'O1_packer_w4_2calls')],
+ 'REG-C09-overlap': [('C09', 'OVERLAP_w4')], 'REG-C03-sourcedef-order': [('C03', 'source_def')], 'LOCAL-C12-utcfilter': [('C12', 'thorough:utc_iterate_D2_N4')], 'REG-C16-tsfactor': [('C16', 'CRASH')], 'REG-C05-prevlen': [('C05', 'empty_middle')], 'REG-C19-repair-next': [('C19', 'O3_repair')], 'REG-C19-repair-head0': [('C19', 'O3_repair')], 'REG-C09-gapfill': [('C09', 'GAP_w16')], 'REG-C01-reader-subbyte': [('C01', 'O2_reader_w4')], 'REG-C01-carry': [('C01', 'O1_packer_w4_2calls')],
  'C01-m1': [('C01', 'O3_level1')], 'C03-m1': [('C03', 'core_wr_data')], 'C03-m2': [('C03', None)], 'C01-m2': [('C15', 'w8'), ('C01', 'w8')],
  'C08-m1': [('C08', None)], 'C08-m2': [('C08', None)], 'C08-m3': [('C08', None)],
  'C09-m1': [('C09', 'OVERLAP_w8'), ('C09', 'OVERLAP_w32')], 'C09-m2': [('C09', 'GAP_w32')],
@@ -48,7 +48,10 @@ def run_seed(sid):
                 continue
             env = dict(os.environ, VERIF_REPO=wt, VERIF_BUILD='/tmp/seedwt/build_' + sid, VERIF_EVIDENCE='/tmp/seedwt/ev_' + sid,
                        VERIF_REPLAYDIR='/tmp/seedwt/replay_' + sid, VERIF_JOBS='6')
-            cmd = ['python3', os.path.join(VERIF, 'run.py'), prop, '--tier', 'quick'] + (['--only', only] if only else [])
+            tier = 'quick'
+            if only and only.startswith('thorough:'):
+                tier, only = 'thorough', only.split(':', 1)[1]
+            cmd = ['python3', os.path.join(VERIF, 'run.py'), prop, '--tier', tier] + (['--only', only] if only else [])
             q = subprocess.run(cmd, capture_output=True, text=True, env=env, cwd=VERIF)
             lines = [l for l in q.stdout.split('\n') if 'VIOLATION' in l or 'counterexample' in l or 'NOT DECIDED' in l or 'UNCONFIRMED' in l or ' done:' in l]
             res['runs'].append({'check': prop, 'only': only, 'exit': q.returncode, 'lines': [l[:260] for l in lines[:8]]})
